@@ -40,17 +40,19 @@ def json_case(fa, cid, raw, records, wut, defaulted):
     return c
 
 
-def contains_record(t, g, seen=()):
+def contains_record(t, g, top=True):
+    """Defaults whose decoded representation is not pinned: a record anywhere, or a union below the top level (the default of a nested union
+    is spelled untagged in the schema, the JSON decoder wants it tagged)."""
     t = g.resolve(t)
     k = t["k"]
     if k == "record":
         return True
     if k == "array":
-        return contains_record(t["items"], g)
+        return contains_record(t["items"], g, False)
     if k == "map":
-        return contains_record(t["values"], g)
+        return contains_record(t["values"], g, False)
     if k == "union":
-        return any(contains_record(b, g) for b in t["br"])
+        return (not top) or any(contains_record(b, g, False) for b in t["br"])
     return False
 
 
